@@ -97,10 +97,11 @@ unsigned k_usage(unsigned cfg, char n0, char n1, char n2, unsigned target, unsig
 #endif
     }
     std::stringstream s;
-    // trip count independent of the symbolic input (prior <= 16 in every plan): keeps the unwinding concrete
-    for (unsigned i = 0; i < 16; ++i)
-        if (i < prior)
-            s << '#';
+    // NOTE for the solver: in the generated C the exit edge of this loop is a backward goto, so CBMC executes what follows once per
+    // possible exit iteration -- which here is a blessing: every copy of usage() sees a CONCRETE stream length (a merged, symbolic
+    // length was measured at 25 GB without a verdict).  The plan therefore gives every loop of k_usage a bound of PMAX + 2 up front.
+    for (unsigned i = 0; i < prior; ++i)
+        s << '#';
     p.usage(s);
     return put(out, cap, s.str(), prior);
 }
